@@ -144,8 +144,61 @@ def load_known():
     return out
 
 
+def run_canaries(prop):
+    """Thorough tier only: positive examples that must match on every run. Every kept seeded change of this property
+    (/verif/seeded/<id>, recorded as detected) is applied to a scratch copy of /repo's CURRENT working tree (outside
+    /repo and /verif, removed afterwards) and the same rules are run on it: the check must report a violation there.
+    A rule that lost its teeth (anchor renamed, instance count dropped to zero, pattern no longer matching) would pass
+    vacuously on /repo; this is what detects it. A patch that no longer applies to the current tree is skipped."""
+    import shutil, subprocess, tempfile
+    base = os.path.join(VERIF, "seeded")
+    out = []
+    if not os.path.isdir(base):
+        return out
+    ids = []
+    for i in sorted(os.listdir(base)):
+        mp = os.path.join(base, i, "meta.json")
+        if os.path.exists(mp):
+            m = json.load(open(mp))
+            if m.get("property") == prop and m.get("detected", True):
+                ids.append(i)
+    if not ids:
+        return out
+    scratch = tempfile.mkdtemp(prefix="wwv-canary-")
+    try:
+        for i in ids:
+            d = os.path.join(scratch, i)
+            rc = subprocess.call(["rsync", "-a", "--exclude", "target", "--exclude", ".git", "--exclude", "artifacts",
+                                  extract.REPO.rstrip("/") + "/", d + "/"])
+            if rc != 0:
+                out.append({"id": i, "status": "skipped", "why": "could not copy the tree"})
+                continue
+            r = subprocess.run(["git", "apply", os.path.join(base, i, "patch.diff")], cwd=d, capture_output=True, text=True)
+            if r.returncode != 0:
+                out.append({"id": i, "status": "skipped", "why": "patch does not apply to the current tree"})
+                shutil.rmtree(d, ignore_errors=True)
+                continue
+            env = dict(os.environ)
+            env.update({"WWV_REPO": d, "WWV_CANARY": "1"})
+            env.pop("WWV_VERBOSE", None)
+            r = subprocess.run([sys.executable, "-m", "ww_static.engine", prop, "--tier", "quick"], cwd=VERIF, env=env,
+                               capture_output=True, text=True)
+            keys = re.findall(r"^  key=(.+)$", r.stdout, re.M)
+            if r.returncode == 1 and keys:
+                out.append({"id": i, "status": "fired", "keys": keys[:4]})
+            elif r.returncode == 0:
+                out.append({"id": i, "status": "silent"})
+            else:
+                out.append({"id": i, "status": "skipped", "why": "analysis of the scratch copy failed: " + (r.stderr or r.stdout)[-200:]})
+            shutil.rmtree(d, ignore_errors=True)
+    finally:
+        shutil.rmtree(scratch, ignore_errors=True)
+    return out
+
+
 def run_check(prop, tier, module=None, explanation="", extra_assumptions=()):
     t0 = time.time()
+    canary_mode = bool(os.environ.get("WWV_CANARY"))
     seed = int(os.environ.get("VERIF_SEED", "0") or 0)
     ctx = Ctx(prop, tier)
     mod = module or importlib.import_module("ww_static.rules.%s" % prop)
@@ -196,6 +249,11 @@ def run_check(prop, tier, module=None, explanation="", extra_assumptions=()):
         viols.append((o, m["configs"]))
     for o, kf in knowns:
         print("KNOWN-FINDING: property=%s %s -- %s" % (prop, o.key, kf.get("what", o.detail)))
+    if canary_mode:
+        # scratch-copy run on behalf of run_canaries: report keys only, touch no evidence / replay file
+        for o, cfgs in viols:
+            print("CANARY-HIT property=%s\n  key=%s" % (prop, o.key))
+        return 1 if viols else 0
     for o, cfgs in viols:
         h = hashlib.sha1(o.key.encode()).hexdigest()[:12]
         rp = os.path.join(OUT, prop, "%s.json" % h)
@@ -218,6 +276,8 @@ def run_check(prop, tier, module=None, explanation="", extra_assumptions=()):
             samples.append({"obligation": key, "verdict": "holds" if m["ok"] else "FAILS",
                             "where": m["o"].where, "detail": m["o"].detail[:300], "configs": m["configs"]})
     rules = sorted({m["o"].rule for m in merged.values()})
+    canaries = run_canaries(prop) if tier == "thorough" else []
+    silent = [c["id"] for c in canaries if c["status"] == "silent"]
     ev = {
         "property_id": prop,
         "tier": tier,
@@ -240,6 +300,9 @@ def run_check(prop, tier, module=None, explanation="", extra_assumptions=()):
             "std_copies_identical": extract.std_copies_identical(),
             "tree_key": extract.tree_hash(),
             "samples": samples,
+            "canaries": {"what": "kept seeded changes of this property applied to scratch copies of the current tree; the check must fire on each",
+                         "fired": [c["id"] for c in canaries if c["status"] == "fired"], "silent": silent,
+                         "skipped": [{"id": c["id"], "why": c.get("why")} for c in canaries if c["status"] == "skipped"]} if tier == "thorough" else None,
             "notes": ctx.notes,
             "exhaustive": True,
         },
@@ -250,8 +313,15 @@ def run_check(prop, tier, module=None, explanation="", extra_assumptions=()):
     os.makedirs(EVID, exist_ok=True)
     with open(os.path.join(EVID, "%s.json" % prop), "w") as fh:
         json.dump(ev, fh, indent=1)
+    if canaries:
+        print("%s canaries: %d fired, %d silent, %d skipped" % (prop, len([c for c in canaries if c["status"] == "fired"]), len(silent),
+                                                                 len([c for c in canaries if c["status"] == "skipped"])))
     print("%s tier=%s obligations=%d discharged=%d known=%d violations=%d functions=%d wall=%.1fs" % (
         prop, tier, n_ob, n_ok, len(knowns), len(viols), len(ctx.fn_seen), time.time() - t0))
+    if silent and not viols:
+        sys.stderr.write("TOOL-FAILURE: the check stays silent on seeded change(s) %s that break this property -- a rule has lost its "
+                         "anchor; the verdict on /repo cannot be trusted\n" % silent)
+        return 2
     return 1 if viols else 0
 
 
